@@ -241,3 +241,18 @@ def _send_may_precede(ctx: Context, f: FuncInfo, node: ast.AST, reach: dict[str,
         if any(t.id in r for t in targets):
             return True, f"`{s.text()}` at line {n.lineno} of {f.short}"
     return False, ""
+
+
+
+_core_run_r5 = run
+
+
+def run(ctx: Context) -> None:  # noqa: F811
+    _core_run_r5(ctx)
+    from . import c01
+
+    if ctx.rep._borrow is not None:
+        return          # already running as a lender: no chains
+    with ctx.rep.borrow({"C01.R4": ("C14.R5", "a request refused by GOAWAY is re-sent on ANOTHER connection: a connection whose h2 state machine has seen GOAWAY is not available, "
+                                               "so the pool's retry cannot put the request back onto it:")}):
+        c01.run(ctx)
